@@ -329,6 +329,32 @@ example : ∃ fields, readCsv (render (tyHeader :: tyRows)) ["a", "b", "c"] tySc
   exact read_csv_typed_eq_spec (ncols := 3) ["a", "b", "c"] tySchema none none rfl (fun _ h => by cases h)
     (fun _ h => by cases h) hk tyRegime hok 12 (by decide +kernel)
 
+/-- the driver-level theorem applies to the same file with one-byte starting budgets (every column regrows) -/
+example : ∃ (dest : Nat → Imp) (calls : List Int),
+    readFile (render (tyHeader :: tyRows)) 3 3 [0, 1, 2, 3] [0, 1, 2]
+        ([0, 1, 2].map (fun c => ({ kind := kindAt ["a", "b", "c"] tySchema c } : Imp))) 40 =
+      .ok ⟨3, [0, 1, 2].map dest, calls⟩ ∧
+    ∀ c ∈ [0, 1, 2], typedSpec (kindAt ["a", "b", "c"] tySchema c) (column (values tyRows) c) = some (dest c) := by
+  have hb : Budgets 3 [0, 1, 2, 3] := by
+    refine ⟨rfl, rfl, ?_⟩
+    intro c hc
+    have : c = 0 ∨ c = 1 ∨ c = 2 := by omega
+    rcases this with rfl | rfl | rfl <;> decide
+  have hk : ∀ c, c < 3 → KindOK (kindAt ["a", "b", "c"] tySchema c) := by
+    intro c hc
+    have : c = 0 ∨ c = 1 ∨ c = 2 := by omega
+    rcases this with rfl | rfl | rfl
+    · exact tyLeaky_ok
+    · exact tyInt_ok
+    · trivial
+  exact read_file_typed_eq_spec tyRegime hb [0, 1, 2] (by decide) (kindAt ["a", "b", "c"] tySchema) hk (by decide) 40
+    (by decide +kernel)
+
+/-- … and every companion of the leaky column has one entry per record, the last free-text offset is the byte count -/
+example : (∀ l ∈ Imp.lengths ({ kind := .leaky tyCats, codes := [1, -1, 0], idx := [0, 0, 5, 5],
+                                 vals := [109, 97, 121, 98, 101], acc := 5 } : Imp), l = 3) :=
+  (typed_companions_aligned (.leaky tyCats) (column (values tyRows) 0) _ (by decide)).1
+
 /-- the model evaluated on that file with a bool column in place of the categorical one (`chunk_row_size = 3`: one record per
     kernel call) yields exactly C06's specification of the whole columns -/
 def tySchemaB : List (String × FieldKind) := [("a", .bool .relaxed true), ("b", tyInt), ("c", .date)]
